@@ -27,6 +27,7 @@ type Gen struct {
 	impls     map[string][]*ssa.Function // interface method key -> implementations in module
 	ifaceImplCache map[*ssa.Function][]ifaceImpl
 	canary    bool
+	spawned   map[*ssa.Function]bool
 }
 
 type locKind int
@@ -82,6 +83,7 @@ type fnTrans struct {
 	ghostVals map[string]sval
 	usedContracts map[string]bool
 	lockKeys  []lockKeyRef
+	capturedBorrow map[ssa.Value]bool
 	curBlock *ssa.BasicBlock
 	rangeOf  map[ssa.Value]*ssa.Range
 }
@@ -267,7 +269,7 @@ func (t *fnTrans) assumeType(x string, ty types.Type) {
 	case *types.Pointer, *types.Chan, *types.Map, *types.Signature:
 		t.assume(fmt.Sprintf("(and (<= 0 %s) (<= %s %s))", x, x, t.h.get(t.cur, "alloc")))
 	case *types.Interface:
-		t.assume(fmt.Sprintf("(<= 0 (itag %s))", x))
+		t.assume(fmt.Sprintf("(and (<= 0 (itag %s)) (=> (= (itag %s) 0) (= %s nil_iface)))", x, x, x))
 		_ = u
 	}
 }
@@ -871,6 +873,7 @@ func (t *fnTrans) fieldAddr(in *ssa.FieldAddr) {
 	owner := pt.Elem()
 	base := t.val(in.X)
 	t.nilCheck(in.X, base, in.Pos(), "field")
+	t.ownFieldUse(in, base)
 	st := owner.Underlying().(*types.Struct)
 	f := st.Field(in.Field)
 	term := t.faddr(owner, in.Field, base)
@@ -1111,6 +1114,8 @@ func (t *fnTrans) assumeLoaded(v string, ty types.Type) {
 		t.assumeType(v, ty)
 	case *types.Pointer, *types.Chan, *types.Map:
 		t.assume(fmt.Sprintf("(and (<= 0 %s) (<= %s %s))", v, v, t.h.get(t.cur, "alloc")))
+	case *types.Interface:
+		t.assumeType(v, ty)
 	}
 }
 
